@@ -86,7 +86,7 @@ func propC16(r *kernel.Run) {
 		nodeID = "nid-16"
 	}
 	creds, id := enrollStored(r, srv, nodeW, nil, nodeID)
-	ncon := tp.Range(2, 6)
+	ncon := tp.Range(2, r.Deep(6, 16))
 	for ci := 0; ci < ncon; ci++ {
 		if tp.Draw(4) == 0 {
 			c16Adversary(r, tp, w, creds, id, nodeID)
